@@ -16,6 +16,7 @@
 (*  {"e":"step","t","i","op","g","first","done","x","flags":[..],"fin":n,   *)
 (*   "latch":b,"tag":{"k","n"},"sameino":b,"changed":b,"oldfd":b,          *)
 (*   "wait":b,"sameq":b (a waiting query: all polls named its instant),    *)
+(*   "answered":b,"anyfin":b (some poll was answered / answered finished), *)
 (*   "q":n (first message of a query),                                     *)
 (*   "finished","names","lat" (last message of a query)}                   *)
 (*  {"e":"tagobs","tag":{"k","n"},"ino":n} status.tag as seen by a polling  *)
@@ -59,6 +60,9 @@ InPlace(r) == IF (r.changed /\ r.sameino) \/ r.oldfd THEN {"TagInPlace"} ELSE {}
 \* a waiting query (the real ProvisionQuery client, all its polls in one row): every request the listener received
 \* for it named the instant the query was created with
 WaitInstant(r) == IF r.wait /\ ~r.sameq THEN {"WaitQueryInstant"} ELSE {}
+\* ... and it returns 'finished' only if the answer to one of its polls said so (a poll that was refused or got no
+\* answer says nothing)
+WaitAnswer(r) == IF r.wait /\ r.finished /\ ~r.anyfin THEN {"WaitQueryUnanswered"} ELSE {}
 Vanished(r) == IF tagF.k # "absent" /\ r.tag.k = "absent" THEN {"TagVanished"} ELSE {}
 
 TInit == Init /\ l = 1 /\ viol = {} /\ runid = "-" /\ tino = 0 /\ tsAt = 0
@@ -131,7 +135,9 @@ TStep ==
         /\ written' = IF isW /\ r.g = "get" /\ ~(r.op = "T" /\ r.first) THEN written \cup {All \ f2} ELSE written
         /\ qs' = IF r.op # "Q" THEN qs
                  ELSE LET q1 == IF r.first
-                                THEN [QIdle EXCEPT !.pc = "qstate", !.q = r.q, !.owed0 = owed, !.ev = allReadyAt,
+                                \* (a waiting query none of whose polls was answered owes nothing: the service was unreachable)
+                                THEN [QIdle EXCEPT !.pc = "qstate", !.q = r.q, !.owed0 = IF r.wait /\ ~r.answered THEN 0 ELSE owed,
+                                                   !.ev = allReadyAt,
                                                    !.inR0 = KKInReset]
                                 ELSE qs[r.i]
                           q2 == IF r.g \in {"get", "ask"} THEN [q1 EXCEPT !.fl = f2, !.rep = rep2, !.ev = Max(q1.ev, ev2)]
@@ -143,7 +149,7 @@ TStep ==
                                                 !.lat = r.lat, !.tu = timeupAt]
                                 ELSE q2
                       IN [qs EXCEPT ![r.i] = q3]
-  /\ viol' = viol \cup Failing \cup InPlace(Rec[l]) \cup Vanished(Rec[l]) \cup WaitInstant(Rec[l]) /\ l' = l + 1
+  /\ viol' = viol \cup Failing \cup InPlace(Rec[l]) \cup Vanished(Rec[l]) \cup WaitInstant(Rec[l]) \cup WaitAnswer(Rec[l]) /\ l' = l + 1
   /\ UNCHANGED <<clock, kkLeft, rdLeft, latchLeft, tmpF, fd, last, runid, tino>>
 
 TNext == TRun \/ TTick \/ TObs \/ TStep
